@@ -81,7 +81,7 @@ def synth_str(c):
     if c['cls'] == 'esc':
         return ('"\\\n\'' * n)[:n]
     if c['blen'] >= 0:
-        return base64.b64encode(bytes((7 * i + 1) % 256 for i in range(c['blen']))).decode()
+        return base64.b64encode(bytes((251 + 4 * i) % 256 for i in range(c['blen']))).decode()
     return 'z' * n
 
 
@@ -127,7 +127,7 @@ def concrete(c, dt=None, obj=None, internal=False):
     if j == 'str':
         return synth_str(c)
     if j == 'bytes':
-        return bytes((7 * i + 1) % 256 for i in range(c['len']))
+        return bytes((251 + 4 * i) % 256 for i in range(c['len']))
     if j == 'member':
         if obj is not None and isinstance(obj, fd.EnumType):
             for m in obj._enum.members:
@@ -358,16 +358,32 @@ def wire_value(conc):
     return json.loads(json.dumps(conc))
 
 
-def run_case(obj, dt, c, p, path):
-    """execute one case on the real datatype -> (outcome, raw result)"""
-    conc = concrete(c, dt, obj)
-    prev = None if p['j'] == 'none' else concrete(p, dt, obj, internal=True)
+def run_case(obj, dt, c, p, path, conc=None, prev=None):
+    """execute one case on the real datatype -> (outcome, raw result).
+    conc / prev: the concrete values to use instead of the representatives gamma would build"""
+    if conc is None:
+        conc = concrete(c, dt, obj)
+        if path == 'wire':
+            conc = wire_value(conc)
+    if prev is None and p['j'] != 'none':
+        prev = concrete(p, dt, obj, internal=True)
     if path == 'wire':
-        conc = wire_value(conc)
         return outcome_of(lambda: obj.validate(obj.import_value(conc), prev), dt, c, conc, p, prev)
     if path == 'write':
         return outcome_of(lambda: obj.validate(conc, prev), dt, c, conc, p, prev)
     return outcome_of(lambda: obj(conc), dt, c, conc)
+
+
+def concrete_children(dt, c, conc):
+    """the concrete element values matching children(dt, c, .) or None when they cannot be indexed"""
+    try:
+        if dt['k'] in ('array', 'tuple') and c['j'] == 'list':
+            return [conc[i] for i, _ in enumerate(c['xs']) if sub_type(dt, c, i) is not None]
+        if dt['k'] == 'struct' and c['j'] == 'obj':
+            return [conc[e['k']] for e in c['kv'] if sub_type(dt, c, e['k']) is not None]
+    except (TypeError, KeyError, IndexError):
+        pass
+    return None
 
 
 def revalidate(obj, dt, res, path):
